@@ -8,7 +8,7 @@ PY = "/venv/bin/python"
 
 CHECKS = {
     "C01": dict(
-        technique="static analysis: coordinate-frame typestate (FRAME), unit inference (DIM), must-pass-through dataflow (FLOW), periodic-merge rule on resolved normal forms (MERGE), half-open window and padding/shift agreement (WINDOW, PADSHIFT), renderer rules (DIST, SHARP, METRIC, SUMCLIP), exact formula algebra (FORMULA)",
+        technique="static analysis: coordinate-frame typestate (FRAME), unit inference (DIM), must-pass-through dataflow (FLOW), periodic-merge rule on resolved normal forms (MERGE), boundary enumeration over each transverse axis' own length and cell-frame period (MERGE:boundary, FRAME:period), half-open window and padding/shift agreement (WINDOW, PADSHIFT), renderer rules (DIST, SHARP, METRIC, SUMCLIP), periodic metric of the duplicate filter (METRIC), exact formula algebra (FORMULA)",
         text="Decides structural necessary conditions of the localisation property on every path of the four position pipelines: array-index -> cell -> grid frame discipline (the +0.5 offset), cell-volume factor of every located volume, wrap into the box (normalize_point) before droplet construction, volume-weighted merge across periodic boundaries in cell units, half-open periodic window on cylinders. It does not decide the count of droplets or the half-cell theorem itself.",
         note="Trusted: the contract table in DESIGN.md §2.4 (scipy.ndimage.center_of_mass returns array-index positions; GridBase.transform/normalize_point frames; grid.discretization units). Decides the named clauses, not the numerical behaviour.",
         ref="DESIGN.md §5 C01"),
@@ -18,7 +18,7 @@ CHECKS = {
         note="Trusted: GridBase.difference_vector is the periodic metric; numpy tanh/clip semantics. Translation equivariance and float-sum order independence are not decided.",
         ref="DESIGN.md §5 C03"),
     "C04": dict(
-        technique="static analysis: bounds-table/dtype layout agreement (LAYOUT), constraint-mask dominance and def-use of the packed parameter vector (FLOW/PACK), affine typing of intensity slots (AFFINE), effect summary on the image (EFFECT), wrap must-pass-through",
+        technique="static analysis: bounds-table/dtype layout agreement (LAYOUT), constraint-mask dominance and def-use of the packed parameter vector (FLOW/PACK), affine typing of intensity slots (AFFINE), plain squared-residual objective (OBJECTIVE), effect summary on the image (EFFECT), wrap must-pass-through",
         text="Decides necessary conditions of 'never worsens / respects bounds, symmetry and the box': data_bounds indices equal the flattened dtype offsets for all five classes, the constraint mask dominates every use of the free mask and every parameter store is indexed by it, x0/lower/upper/closure agree on the packed slots and their affine types, the fit starts from the candidate, levels come from the fitted region, the final position passes normalize_point after the fit, the image is never written, the class is preserved.",
         note="Trusted: scipy.optimize.least_squares returns a point inside the bounds with cost <= cost at a feasible x0. The numeric cost comparison is not decided.",
         ref="DESIGN.md §5 C04"),
@@ -33,12 +33,12 @@ CHECKS = {
         note="Trusted: GridBase.distance is the periodic metric; scipy cdist applies the metric pairwise. Optimality of the matching for actual motions is not decided.",
         ref="DESIGN.md §5 C07"),
     "C08": dict(
-        technique="static analysis: writer/reader table agreement (IOAGREE) and dtype/ctor layout agreement (LAYOUT) over the five writer and five reader functions",
+        technique="static analysis: writer/reader table agreement (IOAGREE) and dtype/ctor layout agreement (LAYOUT) over the five writer and five reader functions; NaN-abstract walk through the width setter (IOAGREE:nan), identity tests of stored times (NONETEST), vacuous default filter of Emulsion.copy (COPYALL)",
         text="Decides that every attribute/dataset key read is written on every writer path, the empty sentinel agrees, keys are zero-padded fixed-width and read through sorted(), the class name written is looked up in a registry keyed by the same name, the time column written first is the one dropped on reading with a 64-bit float type, dtype fields = constructor parameters = stored fields for all droplet classes, mixed-class emulsions raise before anything is written, and equality used for the round trip is exact.",
         note="Trusted: h5py/NumPy store structured arrays bit-exactly; key width 6 gives order agreement up to 10^6 members.",
         ref="DESIGN.md §5 C08"),
     "C09": dict(
-        technique="static analysis: may-be-empty typestate to empty-intolerant sinks (EMPTY), arity agreement (ARITY), zero-distance division (DIV0), documented-error guards (DIMGUARD), dispatch exhaustiveness over branch tables (EXHAUST), feasibility of the packed start vector in exact linear forms (FEASIBLE), containment of the internal spanning-droplet signal (SIGNAL)",
+        technique="static analysis: may-be-empty typestate to empty-intolerant sinks (EMPTY), arity agreement (ARITY), zero-distance division (DIV0), documented-error guards (DIMGUARD), dispatch exhaustiveness over branch tables (EXHAUST), feasibility of the packed start vector in exact linear forms (FEASIBLE), containment of the internal spanning-droplet signal (SIGNAL), unset-width default selection of the renderers (WIDTH), coordinate system told to grid.distance (METRIC), NaN-tolerant selection in threshold_otsu (TOTAL)",
         text="Decides crash-freedom necessary conditions for the input classes the property names: empty frames/selections are guarded before cdist/center_of_mass/transform, every ndimage.label caller returns an empty emulsion on zero labels, rendering passes each perturbed class as many angles as it accepts, the 3-D angle computation cannot divide 0/0, the grid-family and threshold dispatches are exhaustive with the documented errors, and the fit's start vector is feasible by construction.",
         note="Absence of all exceptions and finiteness of fitted values are not decided.",
         ref="DESIGN.md §5 C09"),
@@ -53,7 +53,7 @@ CHECKS = {
         note="Trusted: IEEE + and * commute; numba register_jitable preserves semantics. Floating-point associativity across many merges is not decided.",
         ref="DESIGN.md §5 C11"),
     "C12": dict(
-        technique="static analysis: exact monomial algebra over extracted return expressions (FORMULA) with complete (variant x dimension) enumeration, generic per-dimension evaluation with sibling inlining, no-division-by-argument rule (ZERO), identities (FORMULA-ID), wiring rules on droplet properties (WIRING)",
+        technique="static analysis: exact monomial algebra over extracted return expressions (FORMULA) with complete (variant x dimension) enumeration, generic per-dimension evaluation with sibling inlining, no-division-by-argument rule (ZERO), argument-shaped constants (FORMULA:constant-shape), identities (FORMULA-ID), wiring rules on droplet properties (WIRING)",
         text="Every return expression of every variant of each sphere conversion (plain, dimension-specialised factory, dimension-generic factory, numba overload lambdas, py-pde's function) is evaluated per dimension into an exact monomial over the reals; variants must be equal, compositions must be the identity, dV/dr must equal the surface, and the droplet properties must call the matching converter with (radius, dim). Exhaustive over the finite table; exact for every positive real.",
         note="Exact arithmetic over the reals; last-bit floating-point agreement and NumPy scalar/array dispatch are not decided.",
         ref="DESIGN.md §5 C12"),
@@ -68,7 +68,7 @@ CHECKS = {
         note="Solver-driven runs are not analysed; pde.visualization.plotting.extract_field is trusted to be deterministic.",
         ref="DESIGN.md §5 C14"),
     "C15": dict(
-        technique="static analysis: ordered-map API rule and serial/parallel branch agreement (PARMAP), one-shot iterable consumption (ITER-ONCE), argument forwarding (FORWARD), purity over the reachable call graph (PURE)",
+        technique="static analysis: ordered-map API rule and serial/parallel branch agreement (PARMAP), one-shot iterable consumption (ITER-ONCE), argument forwarding (FORWARD), purity over the reachable call graph (PURE), taint closure from the per-item parameter to writes into objects shared between items (SHARED), pool-size rule (PARMAP:workers)",
         text="Order for every completion schedule follows from Executor.map's contract; the check decides that both parallel sites use it and consume it in order, that serial and parallel branches apply the same callee to the same fixed arguments, keywords, iterable and filter, that one-shot iterables are consumed once, and that no RNG/clock/environment/global state is reachable from the analysis entry points.",
         note="Trusted: concurrent.futures.Executor.map ordering contract; pickling round trip is bit-exact.",
         ref="DESIGN.md §5 C15"),
@@ -78,7 +78,7 @@ CHECKS = {
         note="Trusted: numpy.fft.fftfreq(n, d) has unit 1/d; fftn(norm='ortho') scales amplitude by count^(1/2). FFT theorems (Parseval, symmetries) are not decided.",
         ref="DESIGN.md §5 C16"),
     "C17": dict(
-        technique="static analysis: unit inference (DIM) with coordinate-vs-length typing (AFFINE) along every path to the returned length scale on all three method branches, per-axis wave-vector agreement (INDEXAGREE), dispatch exhaustiveness (EXHAUST), box-volume and peak-search shape rules (VOLUME, PEAK)",
+        technique="static analysis: unit inference (DIM) with coordinate-vs-length typing (AFFINE) along every path to the returned length scale on all three method branches, per-axis wave-vector agreement (INDEXAGREE), dispatch exhaustiveness (EXHAUST), box-volume and peak-search shape rules (VOLUME, PEAK), amplitude unit of the threshold reaching the mask comparison, cell-vs-length frame discipline of the Cartesian locator (FRAME, FLOW, MERGE) and exact normal forms of the relative threshold rules (THRESH) for the droplet count",
         text="A dimensionally homogeneous computation is covariant under a change of units: the check decides that every operation on the path to the result is homogeneous and that the result has degree (length^1, amplitude^0, count^0) under the API contracts, for all three methods.",
         note="Trusted: SmoothData1D sigma is in units of x; minimize_scalar returns x in bracket units. Half-bin accuracy of the peak method is not decided.",
         ref="DESIGN.md §5 C17"),
@@ -89,11 +89,11 @@ CHECKS = {
         ref="DESIGN.md §5 C18"),
     "C19": dict(
         technique="static analysis: exhaustive abstract evaluation of the class-selection fragment over the finite configuration space (CLASSSEL), constructor/field layout compatibility (LAYOUT)",
-        text="The class-selection fragment of locate_droplets plus the promotion in refine_droplet is abstractly evaluated over all (grid family x dimension x modes x width given/zero/none x refine) configurations and compared with the table in the property; periodicity and threshold rule are shown irrelevant (no condition reads them). Complete over that finite space, including branches no test executes.",
-        note="Supported subset of Python in the fragment: if/elif/else, comparisons with constants, isinstance on the grid, class-name assignment, dict stores; anything else is reported as analysis error, not a verdict.",
+        text="The class-selection fragment of locate_droplets plus the promotion in refine_droplet is abstractly evaluated over all (grid family x dimension x modes x width given/zero/none x refine) configurations and compared with the table in the property (108 configurations, modes 0/2/3); periodicity, refinement flag and threshold rule are shown irrelevant for the selection (no condition reads them). Complete over that finite space, including branches no test executes.",
+        note="Supported subset of Python in the fragment: if/elif/else, comparisons with constants, isinstance on the grid, class-name assignment, dict stores, integer arithmetic and augmented assignment; anything else is reported as analysis error, not a verdict.",
         ref="DESIGN.md §5 C19"),
     "C20": dict(
-        technique="static analysis: who-may-store ownership rule and path-sensitive copy-on-insert (OWN), fresh derivations through constructors (FRESH), lock-step parallel lists incl. default-time cases (PAIR), rejection guards dominating the store (REJECT), removal-loop shape (REMOVE), identity tests of optional values (NONETEST), linked-data binding (LINK)",
+        technique="static analysis: who-may-store ownership rule and path-sensitive copy-on-insert (OWN), fresh derivations through constructors (FRESH), lock-step parallel lists incl. default-time cases (PAIR), rejection guards dominating the store (REJECT), removal-loop shape (REMOVE), identity tests of optional values (NONETEST), linked-data binding (LINK), order-free summaries (ORDERFREE), in-place merge alias rule (ALIAS), vacuous default filter of Emulsion.copy (COPYALL)",
         text="Decides that the only primitive stores into the backing lists are the three owner methods, that on the default path the stored value is a fresh copy for every argument type, that copies/slices/sums are built through constructors with re-listed times, that times/members are mutated in lock-step on every path of every method, that constructors own their lists, and that the consistency and dimension guards raise.",
         note="The statistics clause (summary queries equal their definitions) is not decided.",
         ref="DESIGN.md §5 C20"),
